@@ -168,6 +168,9 @@ pub trait Grp: Sized + Send + Sync + 'static {
     fn decode_bytes(compressed: bool, bytes: &[u8], checked: bool) -> Result<Result<Self::Aff, pairing_plus::GroupDecodingError>, String>;
     /// crate encoding through CurveAffine::into_compressed / into_uncompressed
     fn encode_aff(a: &Self::Aff, compressed: bool) -> Result<Vec<u8>, String>;
+    /// encode and decode again WITHOUT leaving the crate's EncodedPoint value (no copy through bytes):
+    /// `a.into_compressed().into_affine()` as a user writes it; via_from_affine uses EncodedPoint::from_affine
+    fn roundtrip_value(a: &Self::Aff, compressed: bool, checked: bool, via_from_affine: bool) -> Result<(Vec<u8>, Result<Self::Aff, pairing_plus::GroupDecodingError>), String>;
 }
 
 macro_rules! codec_impl {
@@ -188,6 +191,23 @@ macro_rules! codec_impl {
                 go!($comp)
             } else {
                 go!($uncomp)
+            }
+        }
+        fn roundtrip_value(a: &Self::Aff, compressed: bool, checked: bool, via_from_affine: bool) -> Result<(Vec<u8>, Result<Self::Aff, pairing_plus::GroupDecodingError>), String> {
+            use pairing_plus::EncodedPoint;
+            macro_rules! go {
+                ($t:ty, $into:ident) => {{
+                    crate::engine::cr("encode then decode the same EncodedPoint value", || {
+                        let e: $t = if via_from_affine { <$t>::from_affine(*a) } else { a.$into() };
+                        let bytes = e.as_ref().to_vec();
+                        (bytes, if checked { e.into_affine() } else { e.into_affine_unchecked() })
+                    })
+                }};
+            }
+            if compressed {
+                go!($comp, into_compressed)
+            } else {
+                go!($uncomp, into_uncompressed)
             }
         }
         fn encode_aff(a: &Self::Aff, compressed: bool) -> Result<Vec<u8>, String> {
